@@ -74,6 +74,12 @@ if not NATIVE:
                 return None
             return _M(s, g)
 
+        def match(self, s):
+            r = self.sp.match_end(s, 0)      # first-priority match at 0, like re.match
+            if r is None:
+                return None
+            return _M(s, r[1])
+
     class _M:
         def __init__(self, s, g):
             self.s, self.g = s, g
